@@ -78,8 +78,20 @@ class Totality:
         k = (key, cfg)
         if k not in self.ai_memo:
             view = self.prog.view(key, cfg)
-            self.ai_memo[k] = absint.Analysis(view)
+            self.ai_memo[k] = None   # recursion guard
+            self.ai_memo[k] = absint.Analysis(view, ret_len=self._ret_len)
         return self.ai_memo[k]
+
+    def _ret_len(self, callee, term, caller_ai):
+        """Length of the slice a local function returns, inferred from its own body."""
+        ccfg = self.callee_cfg(caller_ai.v, term["fn"], callee, caller_ai.v.cfg)
+        if ccfg == "any":
+            return None
+        k = (callee, ccfg if "BITS" in self.prog.const_params(self.prog.bodies[callee]) else None)
+        if k in self.ai_memo and self.ai_memo[k] is None:
+            return None
+        a = self.ai(*k)
+        return a.return_len() if a is not None else None
 
     def residuals(self, key, cfg, depth=0):
         """Residual sites of function `key` under configuration cfg."""
@@ -141,7 +153,12 @@ class Totality:
 
         def pk(op):
             k = a.operand_key(st, op)
-            return param_key(view, a, k) if k is not None else None
+            r = param_key(view, a, k) if k is not None else None
+            if r is None:
+                iv, _ = a.eval_operand(st, op)
+                if iv is not None and iv[0] == iv[1]:
+                    return ("c", iv[0])
+            return r
 
         def plen(op):
             if op.get("o") not in ("copy", "move") or op["p"]:
@@ -151,14 +168,28 @@ class Totality:
                 return None
             if lk[0] == "const":
                 return ("c", lk[1])
-            return param_key(view, a, lk)
+            r = param_key(view, a, lk)
+            if r is None:
+                iv = a.get(st, lk)
+                if iv is not None and iv[0] == iv[1]:
+                    return ("c", iv[0])
+            return r
         if site.kind == "assert:BoundsCheck":
             ki, kl = pk(t["index"]), pk(t["len"])
             if ki is not None and kl is not None:
                 return ("Ge", ki, kl, True)
             return None
+        if site.kind.startswith("assert:"):
+            c = t["cond"]
+            if c.get("o") in ("copy", "move") and not c["p"]:
+                f = st.bf.get(c["l"])
+                if f is not None:
+                    pa, pb = param_key(view, a, f[1]), param_key(view, a, f[2])
+                    if pa is not None and pb is not None:
+                        return (f[0], pa, pb, not t["expected"])
+            return None
         if site.kind == "foreign":
-            name, args = site.what, t["args"]
+            name, args = site.callee, t["args"]
             if "index::Index" in name and len(args) == 2 and "for str>" not in name:
                 kl = plen(args[0])
                 ra = self._range_arg(view, a, st, args[1])
@@ -195,8 +226,7 @@ class Totality:
                 neg = True
             if ch[0] != "call":
                 continue
-            name = ir.callee_name(ch[1]["fn"])
-            if name != callee and not (name or "").endswith(callee):
+            if callee not in ir.callee_keys(ch[1]["fn"]):
                 continue
             for s in view.succ.get(b, []):
                 vals = [v for v, bb in t["targets"] if bb == s]
@@ -220,8 +250,7 @@ class Totality:
         if not rows:
             return None
         for r in rows:
-            if r.get("kind", kind) == kind and (r.get("what") is None or r["what"] == what or
-                                                (what and what.endswith(r["what"]))):
+            if r.get("kind", kind) == kind and r.get("what") == what:
                 return r
         return None
 
@@ -466,7 +495,7 @@ class Totality:
         implicit_ok = self.implicit_scope(body)
         for site in panics.local_sites(view):
             implicit = site.kind.startswith("assert:") or site.kind == "foreign"
-            explicit_foreign = site.kind == "foreign" and site.what in EXPLICIT_FOREIGN
+            explicit_foreign = site.kind == "foreign" and site.callee in EXPLICIT_FOREIGN
             if implicit and not explicit_foreign and not implicit_ok:
                 continue   # kernels: implicit sites are the value contract of C14/C15 (trusted leaves)
             self.stats["sites"] += 1
@@ -480,7 +509,7 @@ class Totality:
                 self.stats["discharged"] += 1
                 self.discharge_log.append((key, cfg, site.kind, site.what, how))
                 continue
-            what = site.what if site.kind != "diverge" else (site.macro or site.what)
+            what = site.what
             row = self._table_row(key, site.kind, what)
             preds = []
             if row is not None and not self._row_ok(view, site.block, row):
@@ -491,7 +520,10 @@ class Totality:
                 if row.get("pred"):
                     # the site stays, but with a predicate a caller can discharge
                     p = row["pred"]
-                    preds.append((p["name"], p["param"]))
+                    if p["name"] == "test":
+                        preds.append(("test", p["test"], p["truth"]))
+                    else:
+                        preds.append((p["name"], p["param"]))
                 else:
                     self.stats["table"] += 1
                     continue
@@ -581,11 +613,11 @@ class Totality:
                             kb = self._translate_param_key(view, a, st, g[2], t["args"])
                             if ka is not None and kb is not None:
                                 guards.append((g[0], ka, kb, g[3]))
-                        for pname, pparam in rs.preds:
-                            if 0 <= pparam - 1 < len(t["args"]):
-                                rp = self._root_param(view, t["args"][pparam - 1])
+                        for pr in rs.preds:
+                            if pr[0] == "nonzero" and 0 <= pr[1] - 1 < len(t["args"]):
+                                rp = self._root_param(view, t["args"][pr[1] - 1])
                                 if rp is not None:
-                                    preds.append((pname, rp))
+                                    preds.append((pr[0], rp))
                     out.append(Residual(rs.origin_fn, rs.origin_kind, rs.origin_what, rs.origin_where,
                                         rs.origin_macro, [key] + rs.chain, guards, preds))
         # de-duplicate by (origin, chain)
@@ -651,10 +683,6 @@ class Totality:
             c, _ = a.eval_operand(st, t["cond"])
             if c is not None and c[0] == c[1] == int(t["expected"]):
                 return "D-ival: condition decided by intervals"
-            if site.kind in ("assert:DivisionByZero", "assert:RemainderByZero"):
-                d, _ = a.eval_operand(st, t["a"]) if "a" in t else (None, None)
-                if d is not None and (d[0] > 0 or d[1] < 0):
-                    return "D-zero: divisor interval excludes 0"
             return None
         if site.kind == "foreign":
             return self._discharge_foreign(view, a, st, site)
@@ -698,7 +726,7 @@ class Totality:
 
     def _discharge_foreign(self, view, a, st, site):
         t = site.term
-        name = site.what
+        name = site.callee
         args = t["args"]
         if "index::Index" in name and len(args) == 2 and ("for [T]>" in name or "for [T; N]>" in name
                                                              or "for str>" in name):
@@ -791,7 +819,14 @@ class Totality:
         if rs.preds:
             ok_all = True
             why = []
-            for pname, pparam in rs.preds:
+            for pr in rs.preds:
+                if pr[0] == "test":
+                    if self.dominated_by_test(view, bi, pr[1], pr[2]):
+                        why.append("dominated by %s==%s" % (pr[1].split("::")[-1], pr[2]))
+                        continue
+                    ok_all = False
+                    break
+                pname, pparam = pr
                 if pname != "nonzero" or not (0 <= pparam - 1 < len(args)):
                     ok_all = False
                     break
